@@ -240,6 +240,9 @@ def random_tcp_history(rng, hid, steps=6):
     tcp = {k: v for k, v in tcp.items() if k.startswith("tcp")}
     tcp["tcp5"] = dict(label="tcp5", rules=[R("tcp3.local", P("/", "s2"))], ann={"tcp-service-port": "7001"})
     tcp["tcp6"] = dict(label="tcp6", rules=[R("tcp.local", P("/", "s1"))], ann={"tcp-service-port": "7002"})
+    # port level keys declared by one of the ingresses that share the port
+    tcp["tcp8"] = dict(label="tcp8", rules=[R("tcp8.local", P("/", "s1"))], ann={"tcp-service-port": "7001", "tcp-service-proxy-protocol": "true"})
+    tcp["tcp9"] = dict(label="tcp9", rules=[R("tcp9.local", P("/", "s2"))], ann={"tcp-service-port": "7001", "tcp-service-log-format": "%ci"})
     h = dict(id=hid, opt=dict(shards=rng.choice([0, 0, 3]), watchwithoutclass=True), steps=[])
     live = {}
     for s in range(steps):
